@@ -95,6 +95,7 @@ def runWire (v : Variant) : List (World × String) → List String → Option (L
 
 def handle (line : String) : String :=
   match fields line with
+  | "R" :: _ => "srv"    -- real-Server lines: service.go's handlers are not modelled, only the predicate is evaluated
   | ["H", n, c, fs, ops] =>
     match n.toNat?, c.toNat?, parseCsv fs with
     | some N, some C, some fs =>
